@@ -30,6 +30,10 @@ Definition vm_timeout_op : cmpop := CGt.
 Definition vm_cycle_reset : Z := (0)%Z.
 Definition vm_cycle_init : Z := (0)%Z.
 
+(* exec.c: instructions executed between a positive deadline test (`result = ERROR_SCAN_TIMEOUT; stop = true`) and the exit of `while (!stop)`: 0 when the test is the last statement of the loop body (after the switch), 1 when it sits before the switch *)
+Definition vm_instrs_after_deadline_test : Z := (0)%Z.
+Definition vm_deadline_test_after_switch : bool := true.
+
 (* scan.c _yr_scan_add_match_to_list: `if (matches_list->count OP LIMIT) { result = ERR; goto _exit; }` before the insertion *)
 Definition match_cap_op : cmpop := CEq.
 Definition match_cap_limit : Z := YR_MAX_STRING_MATCHES.
